@@ -35,6 +35,16 @@ pub enum NStep {
     GrpcDereg { conn: u8, svc: u8, ip: u8, eph: bool },
     ConnClose { conn: u8 },
     Advance { ms: u64 },
+    /// messages of a peer node (id 2), fed to the real receiving entry point handle_naming_route: a synced
+    /// registration of one of the peer's clients (gRPC connection or HTTP), a synced removal, the peer reporting a
+    /// client as gone, and the peer's periodic list of its clients' instances
+    PeerUpd { conn: u8, svc: u8, ip: u8, grpc: bool },
+    PeerDel { conn: u8, svc: u8, ip: u8 },
+    PeerClientGone { conn: u8 },
+    PeerDistro { conn: u8, keys: Vec<(u8, u8)> },
+    /// outcome of the TCP probe of a persistent instance (what the NetSniffing actor reports; the connection
+    /// attempt itself is outside the seams)
+    Probe { svc: u8, ip: u8, ok: bool },
     /// clean stop and start of the node: ephemeral registrations are gone, persistent ones come back from the Raft store
     Restart,
 }
@@ -58,6 +68,8 @@ pub struct MInst {
     /// the owner is not known exactly: a persistent instance registered over gRPC loses its connection
     /// binding when the Raft round trip re-applies it, at a moment the model does not track
     pub unsure: bool,
+    /// the last reported TCP probe of this (persistent) instance failed
+    pub probe_failed: bool,
 }
 
 fn svc_key(s: u8) -> ServiceKey {
@@ -140,7 +152,7 @@ pub async fn exec_naming(id: &'static str, script: Value) -> ExecResult {
                     let want_eph = *eph != 2;
                     match m.get_mut(&(s, a)) {
                         None => {
-                            m.insert((s, a), MInst { ephemeral: want_eph, enabled: *enabled != 2, weight: if *weight > 0 { *weight as f32 } else { 1.0 }, owner: Owner::Http, last_beat_us: now, fuzzy: false, unsure: false });
+                            m.insert((s, a), MInst { ephemeral: want_eph, enabled: *enabled != 2, weight: if *weight > 0 { *weight as f32 } else { 1.0 }, owner: Owner::Http, last_beat_us: now, fuzzy: false, unsure: false, probe_failed: false });
                         }
                         Some(e) => {
                             // update rules of the code (the statement leaves precedence open): a field is
@@ -160,6 +172,7 @@ pub async fn exec_naming(id: &'static str, script: Value) -> ExecResult {
                             }
                             e.last_beat_us = now;
                             e.fuzzy = true;
+                            e.probe_failed = false;
                         }
                     }
                 }
@@ -175,7 +188,7 @@ pub async fn exec_naming(id: &'static str, script: Value) -> ExecResult {
                         }
                         None => {
                             // a beat for an unknown instance registers it (ephemeral, enabled)
-                            m.insert((s, a), MInst { ephemeral: true, enabled: true, weight: 1.0, owner: Owner::Http, last_beat_us: now, fuzzy: true, unsure: false });
+                            m.insert((s, a), MInst { ephemeral: true, enabled: true, weight: 1.0, owner: Owner::Http, last_beat_us: now, fuzzy: true, unsure: false, probe_failed: false });
                         }
                     }
                 }
@@ -208,7 +221,7 @@ pub async fn exec_naming(id: &'static str, script: Value) -> ExecResult {
                     let res = n.invoker.handle(payload, meta).await;
                     vensure!(res.map(|r| r.success).unwrap_or(false), &format!("{}.register_failed", id), "step {}: gRPC register refused", i);
                     let fresh = !m.contains_key(&(s, a));
-                    let e = m.entry((s, a)).or_insert(MInst { ephemeral: *eph, enabled: *enabled, weight: w, owner: Owner::Grpc(c), last_beat_us: now, fuzzy: false, unsure: !*eph });
+                    let e = m.entry((s, a)).or_insert(MInst { ephemeral: *eph, enabled: *enabled, weight: w, owner: Owner::Grpc(c), last_beat_us: now, fuzzy: false, unsure: !*eph, probe_failed: false });
                     if !fresh {
                         e.owner = Owner::Grpc(c);
                         e.fuzzy = true;
@@ -265,6 +278,48 @@ pub async fn exec_naming(id: &'static str, script: Value) -> ExecResult {
                     }
                 }
                 NStep::Advance { .. } => {}
+                NStep::PeerUpd { .. } | NStep::PeerDel { .. } | NStep::PeerClientGone { .. } | NStep::PeerDistro { .. } => {
+                    use rnacos::naming::cluster::model::NamingRouteRequest;
+                    let mut ext = std::collections::HashMap::new();
+                    ext.insert("cluster_id".to_string(), "2".to_string());
+                    let peer_client = |c: u8| Arc::new(format!("2_pconn{}", c % 3));
+                    let mk = |c: u8, s: u8, a: u8, grpc: bool| {
+                        let key = svc_key(s);
+                        let mut inst = Instance { ip: Arc::new(ip_of(a)), port: 8080, weight: 1.0, enabled: true, healthy: true, ephemeral: true, cluster_name: "DEFAULT".to_string(), service_name: key.service_name.clone(), group_name: key.group_name.clone(), namespace_id: key.namespace_id.clone(), from_grpc: grpc, from_cluster: 2, client_id: if grpc { peer_client(c) } else { Arc::new(String::new()) }, ..Default::default() };
+                        inst.generate_key();
+                        inst
+                    };
+                    let req = match st {
+                        NStep::PeerUpd { conn, svc, ip, grpc } => NamingRouteRequest::SyncUpdateInstance { instance: mk(*conn, *svc % 3, *ip % 4, *grpc) },
+                        NStep::PeerDel { conn, svc, ip } => NamingRouteRequest::SyncRemoveInstance { instance: mk(*conn, *svc % 3, *ip % 4, true) },
+                        NStep::PeerDistro { conn, keys } => {
+                            let mut map = std::collections::HashMap::new();
+                            let set: std::collections::HashSet<rnacos::naming::model::InstanceKey> = keys.iter().map(|(s, a)| rnacos::naming::model::InstanceKey::new_by_service_key(&svc_key(*s % 3), Arc::new(ip_of(*a % 4)), 8080)).collect();
+                            map.insert(peer_client(*conn), set);
+                            NamingRouteRequest::SyncDistroClientInstances(map)
+                        }
+                        _ => NamingRouteRequest::Ping(2),
+                    };
+                    if let NStep::PeerClientGone { conn } = st {
+                        let _ = n.app.naming_addr.send(NamingCmd::RemoveClientFromCluster(peer_client(*conn))).await;
+                    } else {
+                        let _ = rnacos::naming::cluster::handle_naming_route(&n.app, req, ext).await;
+                    }
+                    sim::count("probe.peer_message", 1);
+                }
+                NStep::Probe { svc, ip, ok } => {
+                    let (s, a) = (*svc % 3, *ip % 4);
+                    // the prober only visits hosts of persistent instances
+                    let is_persistent = all_instances(&n, s).await.map(|l| l.iter().any(|x| x.ip.as_str() == ip_of(a) && !x.ephemeral)).unwrap_or(false);
+                    if is_persistent {
+                        let host = rnacos::naming::model::InstanceShortKey::new(Arc::new(ip_of(a)), 8080);
+                        let _ = n.app.naming_addr.send(NamingCmd::PerpetualHostSniffing { host, service_keys: vec![svc_key(s)], success: *ok }).await;
+                        sim::count(if *ok { "probe.tcp_probe_ok" } else { "probe.tcp_probe_failed" }, 1);
+                        if let Some(e) = m.get_mut(&(s, a)) {
+                            e.probe_failed = !*ok;
+                        }
+                    }
+                }
                 NStep::Restart => {
                     advance(500).await;
                     stop_node(1).await;
@@ -417,7 +472,7 @@ pub async fn exec_naming(id: &'static str, script: Value) -> ExecResult {
                     if exempt {
                         // persistent and gRPC-connected instances are never expired by the heartbeat clock
                         vensure!(inst.is_some(), "C13.exempt_instance_expired", "after step {}: {}:8080 of {} ({}) is gone {} ms after its last registration", i, ip_of(a), SVCS[s as usize], if e.ephemeral { "gRPC-owned" } else { "persistent" }, age_ms);
-                        if let Some(x) = &inst {
+                        if let (Some(x), false) = (&inst, e.probe_failed && !e.ephemeral) {
                             vensure!(x.healthy, "C13.exempt_instance_unhealthy", "after step {}: {}:8080 of {} ({}) was marked unhealthy {} ms after its last registration", i, ip_of(a), SVCS[s as usize], if e.ephemeral { "gRPC-owned" } else { "persistent" }, age_ms);
                         }
                         continue;
@@ -496,6 +551,21 @@ fn gen_nsteps(rng: &mut Rng, n: u64, bias: &str) -> Vec<NStep> {
         let svc = rng.below(3) as u8;
         let ip = rng.below(4) as u8;
         let r = rng.below(100);
+        if bias == "sync" && rng.chance(0.3) {
+            let conn = rng.below(3) as u8;
+            let r2 = rng.below(100);
+            steps.push(if r2 < 50 {
+                NStep::PeerUpd { conn, svc, ip, grpc: rng.chance(0.8) }
+            } else if r2 < 75 {
+                NStep::PeerDel { conn: if rng.chance(0.8) { conn } else { conn + 1 }, svc, ip }
+            } else if r2 < 87 {
+                NStep::PeerClientGone { conn }
+            } else {
+                let nk = rng.below(3);
+                NStep::PeerDistro { conn, keys: (0..nk).map(|_| (rng.below(3) as u8, rng.below(4) as u8)).collect() }
+            });
+            continue;
+        }
         let st = match bias {
             "timing" => {
                 if r < 25 {
@@ -504,6 +574,8 @@ fn gen_nsteps(rng: &mut Rng, n: u64, bias: &str) -> Vec<NStep> {
                     NStep::HttpBeat { svc, ip }
                 } else if r < 62 {
                     NStep::GrpcReg { conn: rng.below(3) as u8, svc, ip, eph: true, enabled: true, weight: 0 }
+                } else if r < 68 {
+                    NStep::Probe { svc, ip, ok: rng.chance(0.4) }
                 } else {
                     NStep::Advance { ms: *rng.pick(&[500u64, 2000, 4000, 9000, 20000, 45000]) }
                 }
@@ -523,6 +595,8 @@ fn gen_nsteps(rng: &mut Rng, n: u64, bias: &str) -> Vec<NStep> {
                     NStep::ConnClose { conn: rng.below(3) as u8 }
                 } else if r < 82 {
                     NStep::Restart
+                } else if r < 85 {
+                    NStep::Probe { svc, ip, ok: rng.chance(0.4) }
                 } else {
                     NStep::Advance { ms: *rng.pick(&[100u64, 1000, 5000, 12000, 40000]) }
                 }
@@ -552,7 +626,9 @@ impl Check for C11 {
         let mut rng = Rng::derive(seed, "C11.gen", 0);
         let cfg = naming_cfg(&mut rng, false);
         let n = rng.range(8, 70);
-        let steps = gen_nsteps(&mut rng, n, "mixed");
+        // half of the histories also contain messages of a peer node (cluster-sync origins)
+        let bias = if Rng::derive(seed, "C11.bias", 0).chance(0.5) { "sync" } else { "mixed" };
+        let steps = gen_nsteps(&mut rng, n, bias);
         json!({"check": "C11", "seed": seed, "cfg": cfg, "steps": steps})
     }
     fn execute(&self, script: Value) -> LocalFut<ExecResult> {
